@@ -204,6 +204,9 @@ scratch_pad * scratch_pad_new(mmd_engine * e, short format) {
 		for (int i = 0; i < e->citation_stack->size; ++i) {
 			f = stack_peek_index(e->citation_stack, i);
 
+			// Not used yet as far as this scratch pad is concerned
+			f->count = -1;
+
 			store_citation(p, f);
 		}
 
@@ -218,6 +221,9 @@ scratch_pad * scratch_pad_new(mmd_engine * e, short format) {
 		for (int i = 0; i < e->footnote_stack->size; ++i) {
 			f = stack_peek_index(e->footnote_stack, i);
 
+			// Not used yet as far as this scratch pad is concerned
+			f->count = -1;
+
 			store_footnote(p, f);
 		}
 
@@ -231,6 +237,9 @@ scratch_pad * scratch_pad_new(mmd_engine * e, short format) {
 		for (int i = 0; i < e->glossary_stack->size; ++i) {
 			f = stack_peek_index(e->glossary_stack, i);
 
+			// Not used yet as far as this scratch pad is concerned
+			f->count = -1;
+
 			store_glossary(p, f);
 		}
 
@@ -242,6 +251,9 @@ scratch_pad * scratch_pad_new(mmd_engine * e, short format) {
 
 		for (int i = 0; i < e->abbreviation_stack->size; ++i) {
 			f = stack_peek_index(e->abbreviation_stack, i);
+
+			// Not used yet as far as this scratch pad is concerned
+			f->count = -1;
 
 			store_abbreviation(p, f);
 		}
